@@ -356,6 +356,9 @@ type respRec struct {
 	aux       bool // account-URL lookup made on behalf of another request
 	retryHdr  bool
 	noBody    bool // reply to a HEAD request: the marker cannot be conveyed
+	// shape: for authorization objects, the members the caller has to see
+	// when this reply is the final one; errShape: the challenge errors
+	shape, errShape string
 	// raNotBefore: for a Retry-After in date form, the simulated time that date denotes
 	raNotBefore time.Duration
 }
@@ -453,38 +456,104 @@ func problem(status int, typ, marker string) []byte {
 	return b
 }
 
-func (ca *ca) orderJSON(k, seq int) ([]byte, string) {
+func (ca *ca) orderJSON(k, seq int) ([]byte, string, string) {
 	o := ca.orders[k]
 	st := o.status()
+	authzs := []string{fmt.Sprintf("%s/authz/%d", base, k)}
+	if st != "valid" && seq%3 == 0 {
+		authzs = append(authzs, fmt.Sprintf("%s/authz/%d?extra=m%d", base, k, seq))
+	}
 	m := map[string]any{
 		"status":         st,
 		"expires":        markerTime(seq),
 		"identifiers":    []map[string]string{{"type": "dns", "value": "a.example"}},
-		"authorizations": []string{fmt.Sprintf("%s/authz/%d", base, k)},
+		"authorizations": authzs,
 		"finalize":       fmt.Sprintf("%s/fin/%d", base, k),
 	}
+	cert, detail := "", ""
 	if st == "valid" {
-		m["certificate"] = fmt.Sprintf("%s/cert/%d", base, k)
+		cert = fmt.Sprintf("%s/cert/%d", base, k)
+		m["certificate"] = cert
 	}
 	if st == "invalid" {
-		m["error"] = map[string]any{"type": "urn:ietf:params:acme:error:unauthorized", "detail": "order failed", "status": 403}
+		detail = fmt.Sprintf("order failed m%d", seq)
+		m["error"] = map[string]any{"type": "urn:ietf:params:acme:error:unauthorized", "detail": detail, "status": 403}
 	}
 	b, _ := json.Marshal(m)
-	return b, st
+	return b, st, fmt.Sprintf("%s|authz=%d|cert=%s|err=%s", st, len(authzs), cert, detail)
 }
 
-func (ca *ca) authzJSON(k, seq int, st string) []byte {
-	ch := map[string]any{"type": "http-01", "url": fmt.Sprintf("%s/chal/%d", base, k), "token": "tok", "status": st}
-	if st == "invalid" {
-		ch["error"] = map[string]any{"type": "urn:ietf:params:acme:error:unauthorized", "detail": "challenge failed", "status": 403}
+func orderShape(o *xacme.Order) string {
+	detail := ""
+	if o.Error != nil {
+		detail = o.Error.Detail
 	}
-	b, _ := json.Marshal(map[string]any{
+	return fmt.Sprintf("%s|authz=%d|cert=%s|err=%s", o.Status, len(o.AuthzURLs), o.CertURL, detail)
+}
+
+// authzJSON builds an authorization object whose optional members differ from
+// reply to reply (number of challenges, which of them carry an error from a
+// failed validation attempt, the wildcard member), as RFC 8555 sections
+// 7.1.4 and 8.2 allow, and the shape the caller has to see when this reply is
+// the final one.
+func (ca *ca) authzJSON(k, seq int, st string) ([]byte, string, string) {
+	types := []string{"http-01", "dns-01", "tls-alpn-01"}
+	n := 1
+	if st == "pending" || st == "invalid" {
+		n = 1 + seq%3
+	}
+	var chs []any
+	var errs []string
+	shape := fmt.Sprintf("%s|wild=%v|n=%d", st, seq%4 == 0, n)
+	for i := 0; i < n; i++ {
+		cst := st
+		if st == "pending" && (seq+i)%2 == 0 {
+			cst = "processing"
+		}
+		ch := map[string]any{"type": types[i], "url": fmt.Sprintf("%s/chal/%d", base, k), "token": fmt.Sprintf("tok-m%d-%d", seq, i), "status": cst}
+		detail := ""
+		if st == "invalid" && (i == 0 || (seq+i)%2 == 0) {
+			detail = fmt.Sprintf("challenge failed m%d-%d", seq, i)
+		}
+		if cst == "processing" {
+			// RFC 8555 section 8.2: the error of a failed attempt while the server retries
+			detail = fmt.Sprintf("attempt failed m%d-%d", seq, i)
+		}
+		if detail != "" {
+			ch["error"] = map[string]any{"type": "urn:ietf:params:acme:error:unauthorized", "detail": detail, "status": 403}
+			errs = append(errs, detail)
+		}
+		chs = append(chs, ch)
+		shape += fmt.Sprintf("|%s,%s,tok-m%d-%d,%s", types[i], cst, seq, i, detail)
+	}
+	m := map[string]any{
 		"status":     st,
 		"expires":    markerTime(seq),
 		"identifier": map[string]string{"type": "dns", "value": "a.example"},
-		"challenges": []any{ch},
-	})
-	return b
+		"challenges": chs,
+	}
+	if seq%4 == 0 {
+		m["wildcard"] = true
+	}
+	b, _ := json.Marshal(m)
+	return b, shape, strings.Join(errs, ";")
+}
+
+// authzShape is the same rendering of what the client returned.
+func authzShape(a *xacme.Authorization) string {
+	shape := fmt.Sprintf("%s|wild=%v|n=%d", a.Status, a.Wildcard, len(a.Challenges))
+	for _, ch := range a.Challenges {
+		detail := ""
+		if ch.Error != nil {
+			if ae, ok := ch.Error.(*xacme.Error); ok {
+				detail = ae.Detail
+			} else {
+				detail = ch.Error.Error()
+			}
+		}
+		shape += fmt.Sprintf("|%s,%s,%s,%s", ch.Type, ch.Status, ch.Token, detail)
+	}
+	return shape
 }
 
 func (ca *ca) acctJSON(seq int, st string) []byte {
@@ -563,11 +632,11 @@ func (ca *ca) handle(method, path string, payload []byte, seq int) *reply {
 		if path == "/new-order" {
 			rec.endpoint = "neworder"
 			rp.hdr.Set("Location", fmt.Sprintf("%s/order/%d", base, k))
-			rp.body, rec.objStatus = ca.orderJSON(k, seq)
+			rp.body, rec.objStatus, rec.shape = ca.orderJSON(k, seq)
 		} else {
 			rec.endpoint, rec.objStatus = "newauthz", "pending"
 			rp.hdr.Set("Location", fmt.Sprintf("%s/authz/%d", base, k))
-			rp.body = ca.authzJSON(k, seq, "pending")
+			rp.body, rec.shape, rec.errShape = ca.authzJSON(k, seq, "pending")
 		}
 	case strings.HasPrefix(path, "/order/"):
 		k := resIndex(path, "/order/")
@@ -576,7 +645,7 @@ func (ca *ca) handle(method, path string, payload []byte, seq int) *reply {
 		}
 		rec.endpoint = "order"
 		rp.hdr.Set("Location", fmt.Sprintf("%s/order/%d", base, k))
-		rp.body, rec.objStatus = ca.orderJSON(k, seq)
+		rp.body, rec.objStatus, rec.shape = ca.orderJSON(k, seq)
 		if o := ca.orders[k]; o.polls < o.spec.Polls {
 			o.polls++
 			if o.spec.PollRetry >= 0 {
@@ -590,12 +659,12 @@ func (ca *ca) handle(method, path string, payload []byte, seq int) *reply {
 		}
 		if bytes.Contains(payload, []byte("deactivated")) {
 			rec.endpoint, rec.objStatus = "authz-deact", "deactivated"
-			rp.body = ca.authzJSON(k, seq, "deactivated")
+			rp.body, rec.shape, rec.errShape = ca.authzJSON(k, seq, "deactivated")
 			break
 		}
 		o := ca.orders[k]
 		rec.endpoint, rec.objStatus = "authz", o.authzStatus()
-		rp.body = ca.authzJSON(k, seq, rec.objStatus)
+		rp.body, rec.shape, rec.errShape = ca.authzJSON(k, seq, rec.objStatus)
 		if o.apolls < o.spec.AuthzPolls {
 			o.apolls++
 			if o.spec.PollRetry >= 0 {
@@ -617,7 +686,7 @@ func (ca *ca) handle(method, path string, payload []byte, seq int) *reply {
 		ca.orders[k].finalized = true
 		rec.endpoint = "fin"
 		rp.hdr.Set("Location", fmt.Sprintf("%s/order/%d", base, k))
-		rp.body, rec.objStatus = ca.orderJSON(k, seq)
+		rp.body, rec.objStatus, rec.shape = ca.orderJSON(k, seq)
 	case strings.HasPrefix(path, "/cert/"):
 		k := resIndex(path, "/cert/")
 		if k < 0 || k >= len(ca.orders) {
@@ -1163,7 +1232,7 @@ func (r *run) call(ctx context.Context, o Op, st *callerState) (string, error) {
 		if n := resIndex(ord.URI, base+"/order/"); n >= 0 {
 			st.lastOrder = n
 		}
-		return timeMarker(ord.Expires), nil
+		return timeMarker(ord.Expires) + "#" + orderShape(ord), nil
 	case "authorize":
 		a, err := cl.Authorize(ctx, "a.example")
 		if err != nil {
@@ -1172,7 +1241,7 @@ func (r *run) call(ctx context.Context, o Op, st *callerState) (string, error) {
 		if a == nil {
 			return "<nil authorization>", nil
 		}
-		return timeMarker(a.Expires), nil
+		return timeMarker(a.Expires) + "#" + authzShape(a), nil
 	case "getorder", "waitorder":
 		var ord *xacme.Order
 		var err error
@@ -1187,7 +1256,7 @@ func (r *run) call(ctx context.Context, o Op, st *callerState) (string, error) {
 		if ord == nil {
 			return "<nil order>", nil
 		}
-		return timeMarker(ord.Expires), nil
+		return timeMarker(ord.Expires) + "#" + orderShape(ord), nil
 	case "getauthz", "waitauthz":
 		var a *xacme.Authorization
 		var err error
@@ -1202,7 +1271,7 @@ func (r *run) call(ctx context.Context, o Op, st *callerState) (string, error) {
 		if a == nil {
 			return "<nil authorization>", nil
 		}
-		return timeMarker(a.Expires), nil
+		return timeMarker(a.Expires) + "#" + authzShape(a), nil
 	case "revokeauthz":
 		return "", cl.RevokeAuthorization(ctx, url("authz"))
 	case "getchallenge", "accept":
@@ -1352,8 +1421,10 @@ func (r *run) judge(op *opState, val string, err error, ctxDone bool, end time.D
 	case err == nil:
 		if exp != "success" {
 			c.Violate(Prop, "success-without-final-reply", "operation %d (%s) returned success (value marker %q) but the last reply delivered to it was: %s", op.idx, op.kind, val, describe(l))
-		} else if hasValue(op.kind) && val != l.marker {
-			c.Violate(Prop, "result-mismatch", "operation %d (%s) returned a value built from reply %q, but the final reply was: %s", op.idx, op.kind, val, describe(l))
+		} else if mk, shape, _ := strings.Cut(val, "#"); hasValue(op.kind) && mk != l.marker {
+			c.Violate(Prop, "result-mismatch", "operation %d (%s) returned a value built from reply %q, but the final reply was: %s", op.idx, op.kind, mk, describe(l))
+		} else if hasValue(op.kind) && shape != "" && l.shape != "" && shape != l.shape {
+			c.Violate(Prop, "result-mismatch", "operation %d (%s) returned an object that is not the one of the final reply (%s): returned %q, the final reply carried %q", op.idx, op.kind, describe(l), shape, l.shape)
 		}
 	case errors.Is(err, context.DeadlineExceeded) || errors.Is(err, context.Canceled):
 		outcome = "ctx"
@@ -1369,6 +1440,18 @@ func (r *run) judge(op *opState, val string, err error, ctxDone bool, end time.D
 		outcome = "authz-error"
 		if exp != "authzerr" {
 			c.Violate(Prop, "error-mismatch", "operation %d (%s) returned %T (%v) but the last reply delivered to it was: %s", op.idx, op.kind, err, err, describe(l))
+		} else {
+			var got []string
+			for _, e := range aze.Errors {
+				if ae, ok := e.(*xacme.Error); ok {
+					got = append(got, ae.Detail)
+				} else {
+					got = append(got, e.Error())
+				}
+			}
+			if g := strings.Join(got, ";"); g != l.errShape {
+				c.Violate(Prop, "error-mismatch", "operation %d (%s) returned an AuthorizationError listing the problems %q, the final reply (%s) carried %q", op.idx, op.kind, g, describe(l), l.errShape)
+			}
 		}
 	case errors.As(err, &ae):
 		outcome = "acme-error"
